@@ -8,10 +8,14 @@ rules,src=docgrammar.load()
 stm=[x[1] for x in rules['Statement'][1]] 
 mcs=[x[1] for x in rules['MultiClassStatement'][1]]
 cut=set(stm)|set(mcs)|{'Value','ListType'}
+node_kinds={w[1] for adj in m.edges.values() for outs in adj.values() for (k,pl,d) in outs if k in('word','pword') for w in (pl if k=='word' else pl[1]) if w[0] in('open','open_at')}
+print('node kinds',sorted(node_kinds))
+import os
+if os.environ.get('BROAD'): cut={k for k in node_kinds if k in rules}
 print(sorted(cut))
 bang=m.ai._true_set("syntax::token_kind::TokenKind::is_bang_operator")
 dm=gl.DocModel(p,rules,set(bang),set())
-for kind in sys.argv[1:] or ['Defvar','Dump','Class']:
+for kind in (sys.argv[1:] if sys.argv[1:]!=['ALL'] else sorted(cut)):
     t=time.time()
     s,d,a,pr=gl.code_nfa(m,kind,cut)
     print(kind,'code nfa states',len(d),'starts',len(s),'problems',pr[:2],round(time.time()-t,1))
